@@ -67,6 +67,11 @@ def enumerate_cases(tier: str):
             for k in (0, 9):
                 yield {"kind": kind, "fault": "body", "file": "registry", "k": k, "T": None, "mutate": True, "body_exc": name}
             yield {"kind": kind, "fault": "body", "file": "registry", "k": 2, "T": 901, "mutate": True, "body_exc": name}
+    # another task of the application is iterating gateway.listen() while this one leaves the context
+    for kind in ("plain", "plain-nosuspend"):
+        for fault in ("none", "body", "cancel-body", "disconnect"):
+            for k, T in ((0, None), (9, None), (2, 901)):
+                yield {"kind": kind, "fault": fault, "file": "registry", "k": k, "T": T, "mutate": True, "reader_task": True}
     # the same gateway object lives on under a second event loop (asyncio.run called again)
     for kind in KINDS:
         for fault in ("none", "body", "cancel-body"):
@@ -126,6 +131,7 @@ def strategy(tier: str):
             "body_exc": st.sampled_from(BODY_EXCS),
             "bystander": st.sampled_from((False, False, True)),
             "new_loop": st.sampled_from((False, False, True)),
+            "reader_task": st.sampled_from((False, False, True)),
         }
     ).filter(lambda c: not (c["kind"] == "mqtt" and c["fault"] == "connect-once")).filter(lambda c: c["kind"] == "plain" or (c["kind"] == "plain-nosuspend" and c["fault"] not in ("connect-timeout", "disconnect-hang")) or ("disconnect" not in c["fault"] and c["fault"] != "connect-timeout"))
 
@@ -174,6 +180,12 @@ class PlainTransport(env.RecordingTransport):
         self.fault = fault
         self.suspends = suspends
         self.hanging = asyncio.Event()
+        self.block_reads = False
+
+    async def read(self) -> str:
+        if self.block_reads:
+            await asyncio.Event().wait()  # a quiet network: the listening task waits here
+        return await super().read()
 
     async def connect(self) -> None:
         self.connected += 1
@@ -374,6 +386,18 @@ def run_case(case: dict) -> Outcome:
                 return fail("connect-timeout:no-error", "a hanging connect returned")
             async with gateway:
                 entered = True
+                if case.get("reader_task") and kind.startswith("plain"):
+                    # the usual application shape: one task iterates gateway.listen() (waiting for traffic) while this one leaves the context
+                    transport.block_reads = True
+
+                    async def consume() -> None:
+                        async for _message in gateway.listen():
+                            pass
+
+                    consumer = asyncio.ensure_future(consume())
+                    ignore_tasks.add(consumer)
+                    shared["consumer"] = consumer
+                    await asyncio.sleep(0)
                 loaded_now = env.snapshot(gateway.nodes)
                 if initial == "big" and {k: v for k, v in loaded_now.items() if k in BIG_REGISTRY} != BIG_REGISTRY:
                     return fail("entry:file-not-loaded", f"registry after entry has {len(loaded_now)} nodes; the file holds 60")
@@ -429,6 +453,12 @@ def run_case(case: dict) -> Outcome:
             caught = err
         if fault in ("cancel-body", "disconnect-hang") and isinstance(caught, asyncio.CancelledError):
             me.uncancel()
+        if shared.get("consumer") is not None:
+            shared["consumer"].cancel()  # (the application stops its own listener after leaving)
+            try:
+                await shared["consumer"]
+            except BaseException:  # noqa: BLE001
+                pass
         if at_exit_doc is None:
             at_exit_doc = registry_doc(gateway)
         for _ in range(3):
